@@ -1620,6 +1620,11 @@ func (cs *ClientSession) Prompts(ctx context.Context, params *ListPromptsParams)
 // paginate is a generic helper function to provide a paginated iterator.
 func paginate[P listParams, R listResult[T], T any](ctx context.Context, params P, listFunc func(context.Context, P) (R, error), items func(R) []*T) iter.Seq2[*T, error] {
 	return func(yield func(*T, error) bool) {
+		// The cursor in params is advanced from page to page. Put the caller's
+		// value back afterwards, so that ranging over the iterator again (or
+		// reusing params) starts where this traversal started, not on its last page.
+		initial := *params.cursorPtr()
+		defer func() { *params.cursorPtr() = initial }()
 		for {
 			res, err := listFunc(ctx, params)
 			if err != nil {
